@@ -232,7 +232,8 @@ class MoveDataMixin:
             elif isinstance(data, torch.nn.Module):
                 converted = _module_to(data)
             else:
-                converted = data
+                # other (possibly mutable) objects, e.g. dataclasses, lists or dicts, must not be shared by a copy
+                converted = deepcopy(data) if copy else data
             return cast(T, converted)
 
         # manual recursion allows us to do the copy only once
